@@ -18,6 +18,8 @@ struct ParseInfo {
     palette: Option<Arc<palette::ColorPalette>>,
     // Whether `palette` came from new-format (0x2019) palette chunks.
     palette_is_new_format: bool,
+    // Header flag 1: the opacity byte of layer chunks holds a valid value.
+    layer_opacity_valid: bool,
     color_profile: Option<color_profile::ColorProfile>,
     layers: Vec<LayerData>,
     framedata: cel::CelsData<RawPixels>, // Vec<Vec<cel::RawCel>>,
@@ -31,10 +33,11 @@ struct ParseInfo {
 }
 
 impl ParseInfo {
-    fn new(num_frames: u16, default_frame_time: u16) -> Self {
+    fn new(num_frames: u16, default_frame_time: u16, layer_opacity_valid: bool) -> Self {
         Self {
             palette: None,
             palette_is_new_format: false,
+            layer_opacity_valid,
             color_profile: None,
             layers: Vec::new(),
             framedata: cel::CelsData::new(num_frames as u32),
@@ -229,7 +232,7 @@ pub fn read_aseprite<R: Read>(input: R) -> Result<AsepriteFile> {
     let width = reader.word()?;
     let height = reader.word()?;
     let color_depth = reader.word()?;
-    let _flags = reader.dword()?;
+    let flags = reader.dword()?;
     let default_frame_time = reader.word()?;
     let _placeholder1 = reader.dword()?;
     let _placeholder2 = reader.dword()?;
@@ -253,7 +256,7 @@ pub fn read_aseprite<R: Read>(input: R) -> Result<AsepriteFile> {
         ));
     }
 
-    let mut parse_info = ParseInfo::new(num_frames, default_frame_time);
+    let mut parse_info = ParseInfo::new(num_frames, default_frame_time, flags & 1 != 0);
 
     let pixel_format = parse_pixel_format(color_depth, transparent_color_index)?;
 
@@ -334,7 +337,12 @@ fn parse_frame<R: Read>(
                 parse_info.add_palette(palette, true);
             }
             ChunkType::Layer => {
-                let layer_data = layer::parse_chunk(&data)?;
+                let mut layer_data = layer::parse_chunk(&data)?;
+                if !parse_info.layer_opacity_valid {
+                    // Files from before Aseprite 1.0 leave the opacity byte
+                    // unset; their layers are fully opaque.
+                    layer_data.opacity = 255;
+                }
                 parse_info.add_layer(layer_data);
             }
             ChunkType::Cel => {
